@@ -162,6 +162,7 @@ class Comparer:
         self.queue = []
         self.inline_done = set()
         self.reached = set()
+        self.lookup_fns = set()
 
     # -- helpers
     def sp(self, m, line=None):
@@ -497,7 +498,8 @@ class Comparer:
                 continue
             g = v["guard"]
             name = None
-            if (len(g) == 3 and g[0].get("s") == "pool_has_utf8" and g[1].get("d") == "(" and g[2].get("s") == "?"):
+            if (len(g) == 3 and g[0].get("t") == "ident" and g[1].get("d") == "(" and g[2].get("s") == "?"):
+                self.lookup_fns.add(g[0]["s"])      # the private helper the guards call (anchored by role, not by name)
                 args = [a for a in _split(g[1]["ts"])]
                 if len(args) == 3 and len(args[0]) == 1 and args[0][0].get("s") == m["pool_alias"] and len(args[1]) == 1 and \
                         args[1][0].get("s") == pat["name"] and len(args[2]) == 1 and args[2][0]["t"] == "lit":
@@ -505,7 +507,7 @@ class Comparer:
                     if l and l[0] == "bytes":
                         name = l[1].decode("latin-1")
             if name is None:
-                R.unrecognised(rid, "attr:" + where, "guard is not pool_has_utf8(<pool>, <name index>, b\"...\")?: %s" % tok_text(g), sp)
+                R.unrecognised(rid, "attr:" + where, "guard is not <lookup fn>(<pool>, <name index>, b\"...\")?: %s" % tok_text(g), sp)
                 continue
             ok = name == v["name"] and name in U["by_name"] and name not in seen and catch_all_at is None
             R.inst(rid, "attr-name:" + where, ok, sp=sp, expect="variant %s selected by the Utf8 name \"%s\", before the catch-all" % (v["name"], v["name"]),
